@@ -7,6 +7,7 @@ func init() {
 		"float64 Sum is compared exactly only when every partial sum is representable, otherwise within 1e-12*sum|v|; not at all when sum|v| >= 2^1023",
 		"the reported exponential scale is only required to lie in [-10, MaxScale] and not to increase between cumulative collections, not to be the largest that fits",
 		"a measurement dropped with a reported scale underflow (MaxSize 1 or 2) is removed from the reference after checking that it really cannot be placed at scale -10",
+		"the Sum of an int64 histogram is compared exactly with the mathematical (math/big) sum whenever that is an int64, also when a prefix of the measurements sums outside the int64 range; not at all when the total itself is not an int64",
 		"multi_instrument: any *metricdata.ResourceMetrics is legal input to Collect (fresh, last filled by the same reader, or last filled by another reader / another cycle); with several readers the scale-underflow errors of one Record are attributed to the readers whose point cannot hold the value at scale -10",
 	))
 }
